@@ -87,7 +87,11 @@ func (g *Gen) Next() world.Event {
 			}
 			return world.Event{N: n, K: "sched", Shard: sh, Sched: &s}
 		case "restart":
-			return world.Event{N: n, K: "restart", Shard: uint32(g.R.Intn(len(w.Nodes)))}
+			ev := world.Event{N: n, K: "restart", Shard: uint32(g.R.Intn(len(w.Nodes)))}
+			if g.R.Intn(3) == 0 {
+				ev.Probe = "same-factory"
+			}
+			return ev
 		case "redeliver":
 			if len(w.Dead) == 0 {
 				continue
